@@ -66,4 +66,5 @@ def run(rep, fb, tier):
     _l3.rule_narrow_arith(rep, fb)
     _l3.rule_cond_unsigned(rep, fb)
     _bd.rule_exception_unthrown(rep, fb)
+    _l3.rule_narrow_accumulator(rep, fb)
     rep.units = fb.units
